@@ -983,6 +983,11 @@ impl<'a> Writer<'a> {
                 TsigMode::Unsigned { algorithm } => (tsig.rr.unsigned(algorithm), None),
             };
             self.available += tsig.reserved_len;
+            // The space reserved for the TSIG RR assumes an uncompressed
+            // owner. Write it that way, so that exactly the reserved
+            // space is used and a response that fits is never truncated
+            // on account of octets that compression would have saved.
+            self.compression_mode = CompressionMode::Disabled;
             self.add_rr(
                 HintedName::new(Hint::None, &tsig.rr.key_name),
                 Type::TSIG,
